@@ -43,7 +43,7 @@ def all_programs(nodes):
     """item = ('D', name) | ('U', name) read | ('A', name) assignment | ('B', (items...)) block;  <= nodes items in total"""
     if nodes in _ENUM: return _ENUM[nodes]
     from functools import lru_cache
-    atoms = [(k, n) for k in 'DUA' for n in NAMES]
+    atoms = [(k, n) for k in 'DUA' for n in NAMES] + [('X', n, m) for n in NAMES for m in NAMES]      # X: `var n[m]`
 
     @lru_cache(None)
     def items(m):
@@ -64,7 +64,7 @@ def all_programs(nodes):
     progs = []
     for m in range(1, nodes + 1): progs += list(lists(m))
     # only programs with at least one declaration are interesting
-    progs = [p for p in progs if 'D' in repr(p)]
+    progs = [p for p in progs if ("'D'" in repr(p) or "'X'" in repr(p)) and repr(p).count("'X'") <= 1]
     _ENUM[nodes] = progs
     return progs
 
@@ -94,11 +94,15 @@ def oracle_scope(prog_items):
         for it in items:
             cnt[0] += 1; i = cnt[0]
             if it[0] == 'B': walk(it[1], scopes); continue
-            k, n = it
-            vis = None
-            for sc in reversed(scopes):
-                if n in sc: vis = sc[n]; break
-            if k == 'D':
+            k, n = it[0], it[1]
+            def visible(n):
+                for sc in reversed(scopes):
+                    if n in sc: return sc[n]
+                return None
+            if k == 'X':        # the size expression is evaluated before the declared name becomes visible
+                ev.append(('U', 100 + i, it[2], visible(it[2])))
+            vis = visible(n)
+            if k in 'DX':
                 ev.append(('D', i, n, vis)); scopes[-1][n] = i
             else:
                 ev.append(('U', i, n, vis))
@@ -115,8 +119,9 @@ def build_ast(ir, prog_items):
         for it in items:
             cnt[0] += 1; i = cnt[0]
             if it[0] == 'B': out.append(ir.E(A, 'Block', meta=meta(i), stmts=VecV(build(it[1])))); continue
-            k, n = it
-            if k == 'D': out.append(ir.E(A, 'Declaration', meta=meta(i), xtype=Enum('ast::VariableType', 'Var'), name=StrV.of(n), dimensions=VecV([]), is_constant=True))
+            k, n = it[0], it[1]
+            if k == 'X': out.append(ir.E(A, 'Declaration', meta=meta(i), xtype=Enum('ast::VariableType', 'Var'), name=StrV.of(n), dimensions=VecV([var(100 + i, it[2])]), is_constant=True))
+            elif k == 'D': out.append(ir.E(A, 'Declaration', meta=meta(i), xtype=Enum('ast::VariableType', 'Var'), name=StrV.of(n), dimensions=VecV([]), is_constant=True))
             elif k == 'U': out.append(ir.E(A, 'Return', meta=meta(i), value=var(i, n)))
             else: out.append(ir.E(A, 'Substitution', meta=meta(i), var=StrV.of(n), access=VecV([]), op=Enum('ast::AssignOp', 'AssignVar'), rhe=Enum('ast::Expression', 'Number', [meta(i), BigV(1)])))
         return out
@@ -130,7 +135,9 @@ def read_back(ir, body):
         st = deref(st); i = ir.get(st, 'meta').f[0]
         if st.var == 'Block':
             for s in ir.get(st, 'stmts').items: walk(s)
-        elif st.var == 'Declaration': out[i] = ir.get(st, 'name').concrete()
+        elif st.var == 'Declaration':
+            out[i] = ir.get(st, 'name').concrete()
+            for d in ir.get(st, 'dimensions').items: out[ir.get(deref(d), 'meta').f[0]] = ir.get(deref(d), 'name').concrete()
         elif st.var == 'Return': out[i] = ir.get(deref(ir.get(st, 'value')), 'name').concrete()
         elif st.var == 'Substitution': out[i] = ir.get(st, 'var').concrete()
     walk(body)
@@ -278,7 +285,7 @@ def as_conc(v):
 
 
 # ----------------------------------------------------------------------------- replay
-def source_of(p):
+def source_of(p, const_dims=False):
     """Circom function for a scope skeleton + expected shadow warnings"""
     lines = []; cnt = [0]
     def emit(items, ind):
@@ -287,6 +294,7 @@ def source_of(p):
             if it[0] == 'B':
                 lines.append('    ' * ind + 'if (a == %d) {' % cnt[0]); emit(it[1], ind + 1); lines.append('    ' * ind + '}')
             elif it[0] == 'D': lines.append('    ' * ind + 'var %s = %d;' % (it[1], cnt[0]))
+            elif it[0] == 'X': lines.append('    ' * ind + 'var %s[%s];' % (it[1], '2' if const_dims else it[2]))
             elif it[0] == 'U': lines.append('    ' * ind + 'z = z + %s;' % it[1])
             else: lines.append('    ' * ind + '%s = %d;' % (it[1], cnt[0]))
     emit(p, 1)
@@ -304,12 +312,16 @@ def confirm_scope(p):
     try:
         path = os.path.join(d, 'a.circom'); open(path, 'w').write(source_of(p))
         nat = common.Native(common.build_replay('vr_analysis'))
-        out = nat.ask('analyzefile bn254 ' + path, timeout=30); nat.close()
+        out = nat.ask('analyzefile bn254 ' + path, timeout=30)
+        # the same program with literal array sizes: resolving the size expression must not add or remove errors
+        open(path, 'w').write(source_of(p, const_dims=True))
+        ref = nat.ask('analyzefile bn254 ' + path, timeout=30); nat.close()
     finally:
         shutil.rmtree(d, ignore_errors=True)
     if not out.startswith('OK'): return True, out, 'a normal run'
     got = sum(1 for t in out.split()[1:] if t.startswith('CS0001:'))
-    return got != want, {'CS0001': got}, {'CS0001': want}
+    errs = lambda o: sorted(t.split(':')[0] for t in o.split()[1:] if t.split(':')[1] == 'error')
+    return got != want or errs(out) != errs(ref), {'CS0001': got, 'errors': errs(out)}, {'CS0001': want, 'errors': errs(ref)}
 
 
 def confirm_keys(m, t):
@@ -360,7 +372,11 @@ def main(tier, replay=None):
             program = None
             if t['part'] == 'scope':
                 program = all_programs(t['nodes'])[v['model'].get('shape', 0)]
-                bad, got, exp = confirm_scope(program) if v['kind'] == 'shadow-report' else (None, 'engine-level (renaming is internal)', None)
+                if v['kind'] == 'shadow-report': bad, got, exp = confirm_scope(program)
+                elif "'X'" in repr(program):
+                    bad, got, exp = confirm_scope(program)
+                    if not bad: bad, got, exp = None, 'engine-level (renaming is internal; no visible symptom: %s)' % (got,), None
+                else: bad, got, exp = None, 'engine-level (renaming is internal)', None
             elif t['part'] == 'keys': bad, got, exp = confirm_keys(v['model'], t)
             else: bad, got, exp = None, 'engine-level only', None
             rep.validated += 1
@@ -376,7 +392,7 @@ def main(tier, replay=None):
     if rep.nonrepro and not rep.violations:
         rep.inconclusive.append('%d counterexamples did not reproduce natively, e.g. %s' % (len(rep.nonrepro), json.dumps(rep.nonrepro[0], default=str)[:400]))
     pr = prog()
-    rep.bounds = {'scope': 'every program with <= %d items (declaration / read / assignment of two names, blocks, any nesting; %d programs), one parameter' % (bounds(tier), len(all_programs(bounds(tier)))),
+    rep.bounds = {'scope': 'every program with <= %d items (declaration / read / assignment of two names, at most one array declaration `var n[m]` whose size reads a name, blocks, any nesting; %d programs), one parameter' % (bounds(tier), len(all_programs(bounds(tier)))),
                   'keys': 'identifier strings of 1..3 symbolic characters [A-Za-z0-9_], optional 1-digit suffix', 'split': 'names of 1..3 chars, version of 0..2 digits'}
     rep.stubs = ['unique_vars::build_report (arguments captured)']
     rep.assumptions = ['HashMap<String,_> modelled as association lists with symbolic string equality', 'source hash ' + pr.hashes['structure']]
